@@ -67,6 +67,17 @@ def evaluate(case):
         return fails
     if stored.shape[1] == 0:
         return fails
+    # ... and what they contribute is their S(Q): the stored S(Q) points are the conversions of the in-window input points (as a multiset per Q)
+    def canon(a):
+        a = np.asarray(a, dtype=float)
+        return a[:, np.lexsort((a[1], keys(a[0])))]
+    cs, cp = canon(stored), canon(spec)
+    fin = np.isfinite(cp[1]) & np.isfinite(cs[1])
+    if not np.array_equal(np.isfinite(cp[1]), np.isfinite(cs[1])) or not np.allclose(cs[1][fin], cp[1][fin], rtol=1e-12, atol=1e-15):
+        j = int(np.argmax(~np.isclose(cs[1], cp[1], rtol=1e-12, atol=1e-15, equal_nan=True)))
+        fails.append(f"the S(Q) point contributed at Q={cs[0][j]!r} is {cs[1][j]!r}; the conversion of the input point to S(Q) is {cp[1][j]!r}: "
+                     "the mean is taken over something else than the contributed S(Q) points")
+        return fails
     s.merge_data()
     q0 = np.array(s.q_master[s.sq_title], dtype=float)
     v0 = np.array(s.sq_master[s.sq_title], dtype=float)
